@@ -185,7 +185,8 @@ Qed.
    package entry, if there is one (finding C13-F4) *)
 Theorem empty_file_emptied : forall f m f1,
   mutate_empty_file maxl f m = FOk f1 ->
-  exists o n, get f1 o = Some n /\ ndata n = "" /\ edata n = nback n /\ nkind n <> KDir /\ nkind n <> KSym.
+  exists o n, get f1 o = Some n /\ ndata n = "" /\ edata n = nback n /\ nkind n <> KDir /\ nkind n <> KSym /\
+              (tarfs_trunc_detaches = true -> nback n = "").
 Proof.
   intros f m f1 H. unfold mutate_empty_file in H. apply fbind_ok_r in H. destruct H as (f0 & _ & H).
   unfold create_write in H. apply fbind_ok_r in H. destruct H as ([f2 o] & Ho & H). inversion H; subst f1. clear H.
@@ -206,7 +207,8 @@ Proof.
       + inversion Hx; subst; exists cn; rewrite K; repeat split; auto; discriminate.
     - inversion Hx; subst. eexists. split; [exact (new_child_get_new fa d b _ dn Hgd)|]. split; discriminate. }
   destruct (X _ _ _ _ _ _ Ho) as (n & Gn & K1 & K2).
-  exists o, (with_data n ""). split; [exact (get_upd_eq f2 o _ n Gn)|]. repeat split; auto.
+  exists o, (trunc_write n ""). split; [exact (get_upd_eq f2 o _ n Gn)|]. repeat split; auto.
+  all: try (intro E; unfold trunc_write; cbn [nback]; rewrite E; reflexivity).
 Qed.
 
 (* ---- recursive: the walk reaches the whole subtree ---------------------------------------------- *)
